@@ -65,7 +65,9 @@ func (lc *ListenConfig) Listen(ctx context.Context, network, address string) (ne
 }
 
 func (lc *ListenConfig) ListenPacket(ctx context.Context, network, address string) (net.PacketConn, error) {
-	return ListenPacket(network, address)
+	// A Control function may set SO_REUSEPORT (the UDP listener does for
+	// threads > 1); sockets created with one may share an address.
+	return listenPacket(network, address, lc.Control != nil)
 }
 
 func Listen(network, address string) (net.Listener, error) {
@@ -81,9 +83,13 @@ func Listen(network, address string) (net.Listener, error) {
 }
 
 func ListenPacket(network, address string) (net.PacketConn, error) {
+	return listenPacket(network, address, false)
+}
+
+func listenPacket(network, address string, reuse bool) (net.PacketConn, error) {
 	switch network {
 	case "udp", "udp4", "udp6":
-		c, err := W.listenUDP(OwnerProxy, address, W.ProxyAddr4)
+		c, err := W.listenUDP(OwnerProxy, address, W.ProxyAddr4, reuse)
 		if err != nil {
 			return nil, err
 		}
@@ -101,7 +107,7 @@ func (w *World) PeerListen(network, address string) (*TCPListener, error) {
 
 // PeerListenUDP binds a datagram socket owned by the harness.
 func (w *World) PeerListenUDP(address string) (*UDPConn, error) {
-	return w.listenUDP(OwnerPeer, address, netip.Addr{})
+	return w.listenUDP(OwnerPeer, address, netip.Addr{}, false)
 }
 
 // PeerDial connects from src; label is the structural link id.
